@@ -159,6 +159,28 @@ func genScenario(ch chooser) Scenario {
 	for _, p := range sortedKeys(sc.Byz) {
 		sc.Byz[p] = genStrategy(ch, sc.N, sc.T, p, sc.L)
 	}
+	// two overlapping key generations: a second keyper set becomes due while
+	// the first DKG is in a drawn phase
+	if ch.Pick("overlap", 5, 1) == 1 {
+		L := int(sc.L)
+		phase := ch.Pick("overlapPhase", 1, 1, 1)
+		// dealing: from offset 0 the keypers vote for set 2 right after their vote for set 1
+		// (before they have even seen EonStarted of the first eon), so the second eon can start
+		// one block after the first and every DKG message of the first eon comes after it
+		lo, hi := 0, L-2
+		if phase > 0 {
+			lo, hi = phase*L, (phase+1)*L-2
+		}
+		w := make([]int, hi-lo+1)
+		for i := range w {
+			w[i] = 1
+		}
+		rotW := make([]int, sc.N)
+		for i := range rotW {
+			rotW[i] = 1
+		}
+		sc.Overlap = &overlapSpec{At: lo + ch.Pick("overlapAt", w...), Rot: ch.Pick("overlapRot", rotW...)}
+	}
 	// Template "one honest keyper misses its accusation": a Byzantine dealer
 	// that otherwise stays qualified gives honest keyper A a bad eval and A
 	// sleeps through the accusing phase. A must then report failure while
@@ -226,7 +248,7 @@ func genScenario(ch chooser) Scenario {
 	return sc
 }
 
-const c07Rule = "case = (n in 3..5, t in 1..n, phase length L in {6,8,10} blocks, keyper-set order, check-in fork on/off, Byzantine subset of size <= n-t each with a strategy commitment{correct,none,wrong degree,duplicate,points at infinity} x eval per receiver{correct,wrong,none} x accusation{none,false against a drawn set} x apology{correct,wrong,none} x timing per message class{offset inside the phase, first block after the phase; accusations and apologies also 1-3 blocks before their phase}, and a block schedule for 3L+ blocks: order of the honest keypers' sync+send steps per block, per-step send budget {unlimited,1,2}, extra steps, position of the Byzantine transactions inside the block; 1/4 of the runs are unfair: an honest keyper takes no step for 1..L blocks); honest keypers run smobserver.SyncAppWithDB + KeyperCore.handleOnChainChanges + fx.SendShutterMessages on their own pgfake database against the real ShutterApp behind faketm. Non-trivial = the chain carries >=1 accusation made in the accusing phase, or a Byzantine DKG message accepted outside its phase or answered 'seen' (duplicate), or a wrong-degree commitment. Distinct = hash of scenario + schedule."
+const c07Rule = "case = (n in 3..5, t in 1..n, phase length L in {6,8,10} blocks, keyper-set order, check-in fork on/off, Byzantine subset of size <= n-t each with a strategy commitment{correct,none,wrong degree,duplicate,points at infinity} x eval per receiver{correct,wrong,none} x accusation{none,false against a drawn set} x apology{correct,wrong,none} x timing per message class{offset inside the phase, first block after the phase; accusations and apologies also 1-3 blocks before their phase}, and a block schedule for 3L+ blocks: order of the honest keypers' sync+send steps per block, per-step send budget {unlimited,1,2}, extra steps, position of the Byzantine transactions inside the block; 1/4 of the runs are unfair: an honest keyper takes no step for 1..L blocks; in 1/6 of the runs a second keyper set (the same keypers, rotated order, index 2) becomes due on the main chain at a drawn block of the dealing, accusing or apologizing phase of the first DKG, the keypers vote for it and a second eon's DKG overlaps the first; every oracle is then evaluated for both eons, Byzantine keypers act in the first eon only and are silent members of the second); honest keypers run smobserver.SyncAppWithDB + KeyperCore.handleOnChainChanges + fx.SendShutterMessages on their own pgfake database against the real ShutterApp behind faketm. Non-trivial = the chain carries >=1 accusation made in the accusing phase, or a Byzantine DKG message accepted outside its phase or answered 'seen' (duplicate), or a wrong-degree commitment. Distinct = hash of scenario + schedule."
 
 func c07Labels(sc Scenario, st agreeStats, ref *refRecord, r *Run) (labels []string, nontrivial bool) {
 	labels = append(labels, fmt.Sprintf("n=%d", sc.N), fmt.Sprintf("t=%d", sc.T), fmt.Sprintf("L=%d", sc.L), fmt.Sprintf("byz=%d", len(sc.Byz)))
@@ -366,13 +388,22 @@ func anyCommitOnChain(sc Scenario, ref *refRecord) bool {
 }
 
 // runC07Case executes one scenario and evaluates the oracles.
+func runC07CasePlain(rec *Recorder, sc Scenario, fail failFn) string {
+	return runC07CaseX(rec, sc, fixedChooser{}, fail, true)
+}
+
 func runC07Case(rec *Recorder, sc Scenario, ch chooser, fail failFn) (inconclusive string) {
+	return runC07CaseX(rec, sc, ch, fail, false)
+}
+
+func runC07CaseX(rec *Recorder, sc Scenario, ch chooser, fail failFn, plain bool) (inconclusive string) {
 	ctx := context.Background()
 	r, err := newRun(ctx, sc, ch)
 	if err != nil {
 		return "harness: " + err.Error()
 	}
 	defer r.close()
+	r.plainSchedule = plain
 	if err := r.execute(); err != nil {
 		if u := r.unsupported(); len(u) > 0 {
 			return fmt.Sprintf("pgfake: unsupported SQL: %v", u)
@@ -385,6 +416,31 @@ func runC07Case(rec *Recorder, sc Scenario, ch chooser, fail failFn) (inconclusi
 	}
 	st, ref := r.checkAgreement(fail, c07Derived)
 	labels, nt := c07Labels(sc, st, ref, r)
+	if sc.Overlap != nil {
+		phase := []string{"dealing", "accusing", "apologizing"}[min(2, sc.Overlap.At/int(sc.L))]
+		labels = append(labels, "overlapping-eons:set2-due-while-"+phase)
+		if r.h1 == 0 {
+			labels = append(labels, "overlapping-eons:second-eon-did-not-start")
+		} else {
+			labels = append(labels, "overlapping-eons:second-eon-starts-in-"+[]string{"dealing", "accusing", "apologizing", "after-finalize"}[min(3, int((r.h1-r.h0)/sc.L))])
+			// the same oracles for the second eon (positions of keyper set 2;
+			// the Byzantine keypers are silent there)
+			r.switchToSecondEon()
+			st2, _ := r.checkAgreement(func(sig, format string, args ...any) {
+				fail(sig, "[second, overlapping eon] "+format, args...)
+			}, c07Derived)
+			switch {
+			case st2.Successes == len(r.sc.honest()):
+				labels = append(labels, "overlapping-eons:second-eon-all-honest-succeed")
+			default:
+				labels = append(labels, "overlapping-eons:second-eon-not-all-succeed")
+			}
+			if !st2.Premise {
+				labels = append(labels, "overlapping-eons:second-eon-honest-message-outside-phase")
+			}
+			rec.LabelN("decryption-subsets", st2.Subsets)
+		}
+	}
 	rec.Case(sc.String()+" | "+strings.Join(r.sched, " "), nt, labels...)
 	rec.LabelN("decryption-subsets", st.Subsets)
 	return ""
@@ -405,7 +461,7 @@ func TestC07_Agreement(t *testing.T) {
 	rec.AddRule(c07Rule)
 	c07Assumptions(rec)
 	var inconclusive string
-	runRapid(t, N(360, 24000), func(rt *rapid.T) {
+	runRapid(t, N(320, 24000), func(rt *rapid.T) {
 		if inconclusive != "" {
 			return
 		}
@@ -534,4 +590,49 @@ func replayIndex() int {
 	}
 	seed = d.Case.Seed
 	return d.Case.Index
+}
+
+// TestC07_OverlappingEons: a fixed grid of all-honest runs with two
+// overlapping key generations (the generated runs of TestC07_Agreement draw
+// such cases too, this grid makes the class deterministic): keyper set 2
+// becomes due 0..2L+1 blocks after the first eon started.
+func TestC07_OverlappingEons(t *testing.T) {
+	rec := recorder("C07")
+	rec.AddRule(c07Rule)
+	rec.AddRule("overlapping-eons grid: all honest, n in {3,4}, t=2, L=8, keyper set 2 (rotated order) due at offsets {0,1,2,3,5,L+1,2L+1} from the first eon's start, plain fair schedule with send budget unlimited or 1 per step; both eons are evaluated with every oracle")
+	c07Assumptions(rec)
+	idx := 0
+	for _, n := range []int{3, 4} {
+		for _, at := range []int{0, 1, 2, 3, 5, 9, 17} {
+			for _, budget := range []int{0, 1} {
+				idx++
+				if thorough() && !mySlice(idx) {
+					continue
+				}
+				if !thorough() && (n == 4 && budget == 1) {
+					continue
+				}
+				sc := Scenario{N: n, T: 2, L: 8, Order: []int{2, 0, 1, 3}[:n], Byz: map[int]ByzStrategy{}, Fair: true, ForkEnabled: idx%2 == 0,
+					PlainBudget: budget, Overlap: &overlapSpec{At: at, Rot: 1 + idx%(n-1)}}
+				if n == 3 {
+					sc.Order = []int{2, 0, 1}
+				}
+				failed := false
+				inc := runC07CasePlain(rec, sc, func(sig, format string, args ...any) {
+					if failed {
+						return
+					}
+					failed = true
+					detail := fmt.Sprintf(format, args...)
+					path := rec.SaveReplay(t.Name(), fmt.Sprintf("overlap-%d-seed%d", idx, seed), map[string]any{"index": idx, "seed": seed, "scenario": sc.String()})
+					rec.Violation(sig, detail, path)
+					t.Errorf("VERIF-FAIL signature=%s :: %s", sig, detail)
+				})
+				if inc != "" {
+					rec.Inconclusive(inc)
+					t.Fatalf("inconclusive: %s", inc)
+				}
+			}
+		}
+	}
 }
